@@ -4,9 +4,17 @@
 // on a connection that can stall a Write. It observes each call's and push's status and how
 // many Close() calls have returned. -mode window concentrates on calls and pushes issued while
 // Close() is waiting for a handler (used by the C07 check).
+//
+// An incoming call has a kind (script event in:KIND): every way handleCall arrives at the reply
+// it owes - the handler's result, an error status, a panic, a result the body codec refuses or
+// that exceeds the size limit (the first reply write fails, an internal-server-error reply is
+// substituted), no such service method, a refusing or panicking hook. With cfg=post the gate
+// call.postreply parks every handler after its first reply write, so that Close() can be placed
+// between a failed first write and the substitute write.
 package main
 
 import (
+	"encoding/json"
 	"flag"
 	"fmt"
 	"strings"
@@ -17,6 +25,8 @@ import (
 	. "verifharness/hlib"
 
 	erpc "github.com/henrylee2cn/erpc/v6"
+	"github.com/henrylee2cn/erpc/v6/proto/jsonproto"
+	"github.com/henrylee2cn/erpc/v6/proto/pbproto"
 )
 
 const eventWatchdog = 4 * time.Second
@@ -47,6 +57,13 @@ func (w *work) enter(k int) {
 	w.mu.Unlock()
 	atomic.AddInt32(&w.nstart, 1)
 	<-w.ch(k)
+}
+
+// markStarted records a context that was entered without running user code.
+func (w *work) markStarted(k int) {
+	w.mu.Lock()
+	w.started[k] = true
+	w.mu.Unlock()
 }
 
 func (w *work) isStarted(k int) bool {
@@ -88,6 +105,112 @@ func (t *T) Work(arg *int) (int, *erpc.Status) {
 	return *arg, nil
 }
 
+// Req is the argument of /t/do: the call's index and its kind.
+type Req struct {
+	K    int
+	Kind string
+}
+
+// Unenc cannot be encoded by the JSON body codec.
+type Unenc struct {
+	N  int
+	Ch chan int
+}
+
+const (
+	sizeLimit = 64 << 10 // socket message size limit of the process
+	bigLen    = 100 << 10
+)
+
+// Do parks like Work, then produces its reply in the way its kind says.
+func (t *T) Do(arg *Req) (interface{}, *erpc.Status) {
+	workMu.Lock()
+	w := workOf[t.Peer()]
+	workMu.Unlock()
+	t.Swap().Store("kind", arg.Kind)
+	w.enter(arg.K)
+	switch arg.Kind {
+	case "stat":
+		return nil, erpc.NewStatus(1001, "the handler refuses", "")
+	case "panic":
+		panic("the handler panics")
+	case "unenc":
+		return &Unenc{N: arg.K, Ch: make(chan int)}, nil
+	case "big":
+		return strings.Repeat("x", bigLen), nil
+	}
+	return arg.K, nil
+}
+
+// hooks of the closing peer: a postReadCallBody hook that parks like a handler and then refuses
+// (kind veto), a preWriteReply hook that panics (wpanic), a postWriteReply hook that panics (ppanic)
+type hooks struct{}
+
+func (hooks) Name() string { return "c08-hooks" }
+
+func (hooks) PostReadCallBody(ctx erpc.ReadCtx) *erpc.Status {
+	if r, ok := ctx.Input().Body().(*Req); ok && r.Kind == "veto" {
+		workMu.Lock()
+		w := workOf[ctx.Peer()]
+		workMu.Unlock()
+		w.enter(r.K)
+		return erpc.NewStatus(1002, "the hook refuses", "")
+	}
+	return nil
+}
+
+func kindOf(ctx erpc.PreCtx) string {
+	if v, ok := ctx.Swap().Load("kind"); ok {
+		if k, ok := v.(string); ok {
+			return k
+		}
+	}
+	return ""
+}
+
+func (hooks) PreWriteReply(ctx erpc.WriteCtx) *erpc.Status {
+	if kindOf(ctx) == "wpanic" {
+		panic("the preWriteReply hook panics")
+	}
+	return nil
+}
+
+func (hooks) PostWriteReply(ctx erpc.WriteCtx) *erpc.Status {
+	if kindOf(ctx) == "ppanic" {
+		panic("the postWriteReply hook panics")
+	}
+	return nil
+}
+
+// unknownCall serves every unrouted service method in configuration unk: it parks like a handler.
+func unknownCall(ctx erpc.UnknownCallCtx) (interface{}, *erpc.Status) {
+	var r Req
+	json.Unmarshal(ctx.InputBodyBytes(), &r)
+	workMu.Lock()
+	w := workOf[ctx.Peer()]
+	workMu.Unlock()
+	w.enter(r.K)
+	return r.K, nil
+}
+
+// genuineClass: the reply a call of this kind is owed, as the caller classifies it.
+func genuineClass(kind string, unk bool) string {
+	switch kind {
+	case "", "ok", "ppanic":
+		return "ok"
+	case "stat":
+		return "code1001"
+	case "veto":
+		return "code1002"
+	case "nf":
+		if unk {
+			return "ok"
+		}
+		return "code404"
+	}
+	return "code500" // panic, wpanic, unenc, big
+}
+
 func classOf(st *erpc.Status) string {
 	if st.OK() {
 		return "ok"
@@ -119,6 +242,8 @@ type world struct {
 	pw, qw       *work
 	g            *GateCtl
 	ins          []*result
+	kinds        []string
+	unk          bool
 	outs         []*outCall
 	pushes       []*result
 	closeCalls   int
@@ -142,15 +267,30 @@ const (
 	takeID  = "user-1"
 )
 
+// protoOf: the protocol of the connection under test (script prefix cfg=proto:NAME); the raw
+// protocol when none is named. None changes what the machine predicts.
+func protoOf(cfgs map[string]bool) []erpc.ProtoFunc {
+	switch {
+	case cfgs["proto:json"]:
+		return []erpc.ProtoFunc{jsonproto.NewJSONProtoFunc()}
+	case cfgs["proto:pb"]:
+		return []erpc.ProtoFunc{pbproto.NewPbProtoFunc()}
+	}
+	return nil
+}
+
 func newWorld(cfgs map[string]bool) *world {
-	w := &world{pw: newWork(), qw: newWork(), released: map[int]bool{}, age: cfgs["age"]}
+	w := &world{pw: newWork(), qw: newWork(), released: map[int]bool{}, age: cfgs["age"], unk: cfgs["unk"]}
 	if w.age {
-		w.P = erpc.NewPeer(erpc.PeerConfig{DefaultContextAge: ctxAge})
+		w.P = erpc.NewPeer(erpc.PeerConfig{DefaultContextAge: ctxAge}, hooks{})
 	} else {
-		w.P = erpc.NewPeer(erpc.PeerConfig{})
+		w.P = erpc.NewPeer(erpc.PeerConfig{}, hooks{})
 	}
 	w.Q = erpc.NewPeer(erpc.PeerConfig{})
 	w.P.RouteCall(new(T))
+	if w.unk {
+		w.P.SetUnknownCall(unknownCall)
+	}
 	w.Q.RouteCall(new(T))
 	workMu.Lock()
 	workOf[w.P] = w.pw
@@ -164,7 +304,7 @@ func newWorld(cfgs map[string]bool) *world {
 		old.SetID(takeID)
 		w.keep = append(w.keep, pr0, qc0, pc0)
 	}
-	pr, qc, pc := ServeScriptPair(w.P, w.Q, "q:1", "p:1")
+	pr, qc, pc := ServeScriptPair(w.P, w.Q, "q:1", "p:1", protoOf(cfgs)...)
 	w.ps, w.qs = pr.SrvSess, pr.CliSess
 	w.pconn, w.qconn = pc, qc
 	if old != nil {
@@ -322,6 +462,7 @@ func runCase(st *Stats, idx int, script []string) (string, string) {
 	human := strings.Join(script, " ")
 	for len(script) > 0 && strings.HasPrefix(script[0], "cfg=") {
 		cfgs[strings.SplitN(script[0][4:], ":", 2)[0]] = true
+		cfgs[script[0][4:]] = true
 		if strings.HasPrefix(script[0], "cfg=pool:") {
 			var n int
 			fmt.Sscanf(script[0][9:], "%d", &n)
@@ -333,6 +474,17 @@ func runCase(st *Stats, idx int, script []string) (string, string) {
 	w := newWorld(cfgs)
 	defer w.destroy()
 	var ins, outs []string
+	// configurations the machine is told about
+	for _, c := range []string{"unk", "post"} {
+		if cfgs[c] {
+			if c == "post" {
+				w.g.Arm("call.postreply", w.ps)
+			}
+			obs, _ := w.settle()
+			ins = append(ins, VL(VS("cfg"), VS(c)))
+			outs = append(outs, obs)
+		}
+	}
 	enteredBefore := map[int]bool{} // incoming calls whose handler was entered before the first Close()
 	issuedBefore := map[int]bool{}  // outgoing calls issued before the first Close()
 	lost := false
@@ -341,6 +493,7 @@ func runCase(st *Stats, idx int, script []string) (string, string) {
 	for _, ev := range script {
 		f := strings.Split(ev, ":")
 		var in string
+		preArr := -1
 		closing := func() bool {
 			stn := erpc.VerifStatusName(erpc.VerifSessionStatus(w.ps))
 			return stn != "ok"
@@ -350,13 +503,33 @@ func runCase(st *Stats, idx int, script []string) (string, string) {
 			k := len(w.ins)
 			c := &result{}
 			w.ins = append(w.ins, c)
+			kind := ""
+			if len(f) > 1 {
+				kind = f[1]
+			}
+			w.kinds = append(w.kinds, kind)
+			preArr = w.g.Arrivals("call.prereply", w.ps)
 			go func() {
-				var res int
-				cmd := w.qs.Call("/t/work", k, &res)
+				var cmd erpc.CallCmd
+				switch kind {
+				case "":
+					var res int
+					cmd = w.qs.Call("/t/work", k, &res)
+				case "nf":
+					var res interface{}
+					cmd = w.qs.Call("/t/nosuchmethod", &Req{K: k, Kind: kind}, &res)
+				default:
+					var res interface{}
+					cmd = w.qs.Call("/t/do", &Req{K: k, Kind: kind}, &res)
+				}
 				c.cls = classOf(cmd.Status())
 				atomic.StoreInt32(&c.done, 1)
 			}()
-			in = VL(VS("in"))
+			if kind == "" {
+				in = VL(VS("in"))
+			} else {
+				in = VL(VS("in"), VS(kind))
+			}
 		case "out":
 			k := len(w.outs)
 			c := &outCall{}
@@ -433,6 +606,13 @@ func runCase(st *Stats, idx int, script []string) (string, string) {
 		case "relpre":
 			w.g.Release("call.prereply", w.ps)
 			in = VL(VS("relpre"))
+		case "relpost":
+			for w.g.Release("call.postreply", w.ps) {
+			}
+			in = VL(VS("relpost"))
+		case "offpost":
+			w.g.Disarm("call.postreply", w.ps)
+			in = VL(VS("offpost"))
 		case "armgot":
 			w.g.Arm("read.got", w.ps)
 			in = VL(VS("armgot"))
@@ -459,6 +639,13 @@ func runCase(st *Stats, idx int, script []string) (string, string) {
 		obs, ok := w.settle()
 		ins = append(ins, in)
 		outs = append(outs, obs)
+		if f[0] == "in" && len(f) > 1 && f[1] == "nf" && !w.unk && w.g.Arrivals("call.prereply", w.ps) > preArr {
+			// no user code runs for an unrouted method: its context has been entered when it
+			// has reached the gate before its reply write
+			k := len(w.ins) - 1
+			w.pw.markStarted(k)
+			w.released[k] = true
+		}
 		if !ok {
 			st.Fail(idx, "quiescence", "no quiescent state within the watchdog after "+ev, human)
 			break // one watchdog per case, the rest of the timeline is not run
@@ -470,8 +657,8 @@ func runCase(st *Stats, idx int, script []string) (string, string) {
 		if atomic.LoadInt32(&w.sessCloseRet) > 0 && !lost {
 			for k := range enteredBefore {
 				c := w.ins[k]
-				if atomic.LoadInt32(&c.done) != 1 || c.cls != "ok" {
-					st.Fail(idx, "entered-reply", fmt.Sprintf("a Session.Close() call has returned but incoming call %d (handler entered before Close) has no genuine reply: done=%d class=%s", k, c.done, c.cls), human)
+				if want := genuineClass(w.kinds[k], w.unk); atomic.LoadInt32(&c.done) != 1 || c.cls != want {
+					st.Fail(idx, "entered-reply", fmt.Sprintf("a Session.Close() call has returned but incoming call %d%s (handler entered before Close) has no genuine reply: done=%d class=%s want=%s", k, kindNote(w.kinds[k]), c.done, c.cls, want), human)
 				}
 			}
 		}
@@ -484,8 +671,8 @@ func runCase(st *Stats, idx int, script []string) (string, string) {
 			if !lost {
 				for k := range enteredBefore {
 					c := w.ins[k]
-					if atomic.LoadInt32(&c.done) != 1 || c.cls != "ok" {
-						st.Fail(idx, "entered-reply", fmt.Sprintf("Peer.Close() has returned but incoming call %d (handler entered before) has no genuine reply: done=%d class=%s", k, c.done, c.cls), human)
+					if want := genuineClass(w.kinds[k], w.unk); atomic.LoadInt32(&c.done) != 1 || c.cls != want {
+						st.Fail(idx, "entered-reply", fmt.Sprintf("Peer.Close() has returned but incoming call %d%s (handler entered before) has no genuine reply: done=%d class=%s want=%s", k, kindNote(w.kinds[k]), c.done, c.cls, want), human)
 					}
 				}
 			}
@@ -531,8 +718,8 @@ func runCase(st *Stats, idx int, script []string) (string, string) {
 	// every timeline is drained: nothing may be left hanging
 	for k := range enteredBefore {
 		c := w.ins[k]
-		if !lost && (atomic.LoadInt32(&c.done) != 1 || c.cls != "ok") {
-			st.Fail(idx, "entered-reply", fmt.Sprintf("incoming call %d (handler entered before Close) ended with %s", k, c.cls), human)
+		if want := genuineClass(w.kinds[k], w.unk); !lost && (atomic.LoadInt32(&c.done) != 1 || c.cls != want) {
+			st.Fail(idx, "entered-reply", fmt.Sprintf("incoming call %d%s (handler entered before Close) ended with %s instead of its genuine reply %s", k, kindNote(w.kinds[k]), c.cls, want), human)
 		}
 	}
 	for k, c := range w.outs {
@@ -557,6 +744,30 @@ func runCase(st *Stats, idx int, script []string) (string, string) {
 	return VL(ins...), VL(outs...)
 }
 
+func kindNote(kind string) string {
+	switch kind {
+	case "", "ok":
+		return ""
+	case "stat":
+		return " (the handler returns an error status)"
+	case "panic":
+		return " (the handler panics)"
+	case "unenc":
+		return " (the handler's result cannot be encoded: the first reply write fails, an internal-server-error reply is owed)"
+	case "big":
+		return " (the handler's result exceeds the message size limit: the first reply write fails, an internal-server-error reply is owed)"
+	case "nf":
+		return " (no such service method)"
+	case "veto":
+		return " (a postReadCallBody hook refuses)"
+	case "wpanic":
+		return " (a preWriteReply hook panics)"
+	case "ppanic":
+		return " (a postWriteReply hook panics after the reply)"
+	}
+	return " (" + kind + ")"
+}
+
 // drain appends the events that finish every timeline: the stalled write continues, the reader
 // is let go, every handler returns and writes, every remote handler replies.
 func drain(s []string, nout int) []string {
@@ -567,6 +778,7 @@ func drain(s []string, nout int) []string {
 	for i := 0; i < 6; i++ {
 		s = append(s, "relpre")
 	}
+	s = append(s, "offpost")
 	for i := 0; i < nout; i++ {
 		s = append(s, fmt.Sprintf("qrep:%d", i))
 	}
@@ -581,6 +793,29 @@ func genScript(cfg *RunCfg, st *Stats, window bool) []string {
 	closes := 0
 	gotArmed, stalled, lost := false, false, false
 	n := 4 + r.Intn(10)
+	// the kinds of incoming calls, the gate after the first reply write, the unknown-call handler
+	post, unk := false, false
+	if !window {
+		post = r.Intn(4) == 0
+		unk = r.Intn(10) == 0
+	}
+	proto := ""
+	if !window && r.Intn(4) == 0 {
+		proto = []string{"json", "pb"}[r.Intn(2)]
+	}
+	inEvent := func() string {
+		if window || r.Intn(2) == 0 {
+			return "in"
+		}
+		k := callKinds[r.Intn(len(callKinds))]
+		if k == "big" && proto != "" {
+			// (jsonproto and pbproto do not apply the size limit when they pack: only the raw
+			// protocol refuses an oversize reply on the writing side)
+			k = "unenc"
+		}
+		st.Count("in-kind:" + k)
+		return "in:" + k
+	}
 	if window {
 		// a handler in flight, then Close(): everything after is inside the closing window
 		s = append(s, "in")
@@ -607,9 +842,14 @@ func genScript(cfg *RunCfg, st *Stats, window bool) []string {
 			}
 			continue
 		}
+		if post && r.Intn(10) == 0 {
+			s = append(s, "relpost")
+			st.Count("ev:release-after-first-write")
+			continue
+		}
 		switch {
 		case k < 18 && nin < 5 && !gotArmed:
-			s = append(s, "in")
+			s = append(s, inEvent())
 			nin++
 			running++
 			st.Count("ev:incoming-call")
@@ -644,7 +884,7 @@ func genScript(cfg *RunCfg, st *Stats, window bool) []string {
 			parked--
 			st.Count("ev:reply-write")
 		case k < 86 && !gotArmed && nin < 5:
-			s = append(s, "armgot", "in")
+			s = append(s, "armgot", inEvent())
 			nin++
 			gotArmed = true
 			st.Count("ev:frame-read-not-counted")
@@ -660,6 +900,13 @@ func genScript(cfg *RunCfg, st *Stats, window bool) []string {
 			s = append(s, "relw")
 			stalled = false
 		case k < 100 && !lost && r.Intn(3) == 0:
+			if stalled {
+				// (hlib's scripted connection wakes a Write parked in a stall before it closes the
+				// queues: whether the parked bytes still get through when the connection is cut is
+				// a race of the test connection, so the stalled write is let go first)
+				s = append(s, "relw")
+				stalled = false
+			}
 			s = append(s, "lost")
 			lost = true
 			st.Count("ev:connection-lost")
@@ -669,6 +916,18 @@ func genScript(cfg *RunCfg, st *Stats, window bool) []string {
 		s = append(s, "close")
 	}
 	s = drain(s, nout)
+	if post {
+		s = append([]string{"cfg=post"}, s...)
+		st.Count("cfg:post")
+	}
+	if proto != "" {
+		s = append([]string{"cfg=proto:" + proto}, s...)
+		st.Count("cfg:proto-" + proto)
+	}
+	if unk {
+		s = append([]string{"cfg=unk"}, s...)
+		st.Count("cfg:unk")
+	}
 	if !window {
 		switch k := r.Intn(10); {
 		case k < 2:
@@ -680,6 +939,65 @@ func genScript(cfg *RunCfg, st *Stats, window bool) []string {
 		}
 	}
 	return s
+}
+
+var callKinds = []string{"stat", "panic", "unenc", "big", "nf", "veto", "wpanic", "ppanic"}
+
+// kindScripts: for every kind of incoming call, Close()/Peer.Close() at every point of its
+// timeline, with and without the gate after the first reply write.
+func kindScripts() [][]string {
+	var scripts [][]string
+	put := func(cfg []string, base []string, closer []string, pos int) {
+		sc := append([]string{}, cfg...)
+		sc = append(sc, base[:pos]...)
+		sc = append(sc, closer...)
+		sc = append(sc, base[pos:]...)
+		scripts = append(scripts, drain(sc, 0))
+	}
+	for _, k := range callKinds {
+		in := "in:" + k
+		// (for nf nothing parks in user code: relrun is a no-op there)
+		base := []string{in, "relrun", "relpre"}
+		for pos := 1; pos <= len(base); pos++ {
+			put(nil, base, []string{"close"}, pos)
+		}
+		// the gate after the first write: Close() between the first write and what follows it
+		basePost := []string{in, "relrun", "relpre", "relpost"}
+		for pos := 1; pos <= len(basePost); pos++ {
+			if k == "unenc" || k == "big" || pos == 3 {
+				put([]string{"cfg=post"}, basePost, []string{"close"}, pos)
+			}
+		}
+	}
+	// Peer.Close and two closers between the failed first write and the substitute write
+	for _, k := range []string{"unenc", "big"} {
+		scripts = append(scripts, drain([]string{"cfg=post", "in:" + k, "relrun", "relpre", "pclose", "relpost"}, 0))
+		scripts = append(scripts, drain([]string{"cfg=post", "in:" + k, "relrun", "relpre", "close", "close2", "relpost"}, 0))
+		scripts = append(scripts, drain([]string{"in:" + k, "relrun", "pclose", "relpre"}, 0))
+	}
+	// the first write of an unencodable result queues behind a stalled write; Close() meanwhile
+	scripts = append(scripts, drain([]string{"in", "in:unenc", "relrun", "relrun", "stallw", "relpre", "relpre", "close", "relw"}, 0))
+	scripts = append(scripts, drain([]string{"cfg=post", "in", "in:big", "relrun", "relrun", "relpre", "relpost", "stallw", "relpre", "close", "relpre", "relw", "relpost"}, 0))
+	// all kinds at once, one Close
+	all := []string{"cfg=post"}
+	for _, k := range []string{"unenc", "panic", "stat", "nf"} {
+		all = append(all, "in:"+k)
+	}
+	all = append(all, "relrun", "relrun", "relrun", "relpre", "close", "relpre", "relpost", "relpre")
+	scripts = append(scripts, drain(all, 0))
+	// the unknown-call handler serves the unrouted method
+	for pos := 1; pos <= 3; pos++ {
+		put([]string{"cfg=unk"}, []string{"in:nf", "relrun", "relpre"}, []string{"close"}, pos)
+	}
+	// the other stream protocols: Close between the failed first write and the substitute write, a panic, a status
+	for _, pr := range []string{"cfg=proto:json", "cfg=proto:pb"} {
+		scripts = append(scripts, drain([]string{pr, "cfg=post", "in:unenc", "relrun", "relpre", "close", "relpost"}, 0))
+		scripts = append(scripts, drain([]string{pr, "in:unenc", "relrun", "close", "relpre"}, 0))
+		scripts = append(scripts, drain([]string{pr, "in:panic", "in:stat", "in", "out", "close", "relrun", "relrun", "relrun", "relpre", "relpre", "qrep:0"}, 1))
+	}
+	// the connection is cut between the failed first write and the substitute write
+	scripts = append(scripts, drain([]string{"cfg=post", "in:unenc", "relrun", "relpre", "close", "lost", "relpost"}, 0))
+	return scripts
 }
 
 func windowScripts() [][]string {
@@ -731,6 +1049,7 @@ func fixedScripts() [][]string {
 		}
 	}
 	scripts = append(scripts, drain([]string{"cfg=age", "cfg=take", "in", "in", "relrun", "pclose", "push"}, 0))
+	scripts = append(scripts, kindScripts()...)
 	return scripts
 }
 
@@ -749,10 +1068,17 @@ func main() {
 	mode := flag.String("mode", "timeline", "timeline|window")
 	cfg := ParseFlags()
 	Quiet()
+	erpc.SetReadLimit(sizeLimit) // the limit a reply of kind big exceeds; every other frame is tiny
 	st := NewStats("C08", cfg)
-	st.Rule = "timelines over {incoming call (handler parks in the user handler, then before its reply write), outgoing call (remote handler parks), push, remote reply, Close(), a second overlapping Close(), Peer.Close(), handler returns, reply write proceeds, frame read but not yet counted, the next write stalls holding the write lock / continues, connection cut} + drain; fixed part: every placement of {Close, Close+Close, Peer.Close, Close+Peer.Close} on the timeline of one incoming and one outgoing call, Close waiting for an outgoing call with reply / loss, overlapping reply writes, calls and pushes inside the closing window; mode window: a handler in flight, a Close, then calls and pushes; distinct by script"
+	st.Rule = "timelines over {incoming call (handler parks in the user handler, then before its reply write), outgoing call (remote handler parks), push, remote reply, Close(), a second overlapping Close(), Peer.Close(), handler returns, reply write proceeds, frame read but not yet counted, the next write stalls holding the write lock / continues, connection cut} + drain; fixed part: every placement of {Close, Close+Close, Peer.Close, Close+Peer.Close} on the timeline of one incoming and one outgoing call, Close waiting for an outgoing call with reply / loss, overlapping reply writes, calls and pushes inside the closing window; mode window: a handler in flight, a Close, then calls and pushes; distinct by script; every incoming call has a kind (result / error status / handler panic / result the codec refuses / result over the size limit / no such method / refusing hook / panicking preWriteReply hook / panicking postWriteReply hook), gate call.postreply (cfg=post) parks handlers after their first reply write so that Close falls between a failed first write and the substitute internal-server-error write; oracle-only probes: websocket server session closed with handlers in flight, redial-enabled client session whose in-flight handler pushes/calls on it while Close() waits"
 	cw := NewCaseWriter(cfg)
 	distinct := DistinctSet{}
+	if *mode == "probes" {
+		st.Evaluations = runProbes(st, 0)
+		st.DistinctNontrivial = st.Evaluations
+		st.Write(cfg, cw)
+		return
+	}
 	scripts := fixedScripts()
 	if *mode == "window" {
 		scripts = windowScripts()
@@ -778,6 +1104,9 @@ func main() {
 			distinct.Add(strings.Join(sc, " "))
 		}
 		st.Evaluations = len(poolScripts())
+		// session kinds outside the machine (oracle-only): websocket server session, redial client
+		np := runProbes(st, len(scripts)+len(poolScripts()))
+		st.Evaluations += np
 	}
 	st.Evaluations += len(scripts)
 	st.DistinctNontrivial = len(distinct)
